@@ -548,10 +548,18 @@ def run(ctx):
             continue
         if ctx.time_left() < ctx.budget * 0.4:
             limit = min(limit, 300)
+        # iterative context bounding first: every schedule with at most
+        # one, then at most two pre-emptions (the lost-wake-up windows)
+        nb = {}
+        for b in (1, 2):
+            nb[b] = explore_sync(ctx, spec, 300 if ctx.tier == 'quick'
+                                 else 20000, bound=b)
         n, complete = explore_sync(ctx, spec, limit, bound=None)
         na, acomplete = explore_async(ctx, spec, 300)
         ctx.extra['scenarios'][str(i)] = {
             'spec': spec, 'sync_schedules': n, 'sync_complete': complete,
+            'sync_at_most_1_preemption': list(nb[1]),
+            'sync_at_most_2_preemptions': list(nb[2]),
             'async_schedules': na, 'async_complete': acomplete}
         k = random_batch(ctx, k, 150)
     while not ctx.out_of_time() and not ctx.too_many_violations():
